@@ -12,6 +12,10 @@ import (
 
 // TODO(jhenriques): Can we remove timestamps from protobuf messages? Dagaz does not use them...
 
+// maxSampleCoordinate is the largest coordinate (in meters, per axis) accepted
+// for a ground plane sample.
+const maxSampleCoordinate = 1000
+
 type Module struct {
 	currentSession     *models.Session
 	currentParticipant *models.Participant
@@ -74,6 +78,11 @@ func (m *Module) HandleDagazQuadSample(ctx context.Context, msg hwebsocket.Msg) 
 
 	for _, newQuad := range newQuadSample.Samples {
 		quad := NewQuadFromProtobuf(newQuad)
+		if !quad.Center.IsWithin(maxSampleCoordinate) || !quad.Extents.IsWithin(maxSampleCoordinate) {
+			// The grid grows to contain every sample: a non-finite or absurdly
+			// distant sample would panic or exhaust memory. Ignore it.
+			continue
+		}
 		m.state.SpatialPartition.InsertQuad(quad)
 	}
 
@@ -94,7 +103,10 @@ func (m *Module) HandleDagazGetGroundPlane(ctx context.Context, respond hwebsock
 	}
 
 	ray := NewRayFromProtobuf(req.Ray)
-	quadHit, _ := m.state.SpatialPartition.IntersectQuad(ray)
+	var quadHit *Quad
+	if ray.From.IsFinite() && ray.To.IsFinite() {
+		quadHit, _ = m.state.SpatialPartition.IntersectQuad(ray)
+	}
 
 	if quadHit == nil {
 		// create an invalid quad to be able to have a response:
@@ -128,7 +140,10 @@ func (m *Module) HandleDagazGetRegion(ctx context.Context, respond hwebsocket.Re
 			WithTag("msg_type", msg.Type)
 	}
 
-	regionQuads := m.state.SpatialPartition.GetRegion(NewVector3fFromProtobuf(req.Min), NewVector3fFromProtobuf(req.Max))
+	var regionQuads []*Quad
+	if min, max := NewVector3fFromProtobuf(req.Min), NewVector3fFromProtobuf(req.Max); min.IsFinite() && max.IsFinite() {
+		regionQuads = m.state.SpatialPartition.GetRegion(min, max)
+	}
 	regionQuadsProtobuf := make([]*dagazpb.Quad, len(regionQuads))
 	for i := 0; i < len(regionQuads); i++ {
 		regionQuadsProtobuf[i] = regionQuads[i].ToProtobuf()
